@@ -137,6 +137,14 @@ check("C11",
       "dtype/shape of every computed block are recorded and validated by TraceDtype.tla (result dtype = RefDtype, hence path independent; announced = computed).",
       TB + " Platform integer = int64 (this sandbox).", "TLC dtype table + trace validation of executed cells (announced vs computed)", "DESIGN.md section 5 C11")
 
+check("C14",
+      "Api.tla: NamesInjective over gen/NameDeps.tla (which ingredients change each layer family's key names, EXTRACTED from the live code by building pairs of "
+      "lazy results differing in one ingredient) against SemDependsOn, plus the call-history machine with the memo cache keyed as in the code (MemoSound, "
+      "RegistryUntouched); TLC -simulate generates call histories that are replayed in fresh subprocesses (argument digests and a structural snapshot of "
+      "AGGREGATIONS after every call; each result compared with the same call made first in a fresh process); every pair/triple differing in one ingredient "
+      "is evaluated in one merged graph in both orders vs separately; all records validated by the stateful trace spec TraceApi.tla.",
+      TB + " Content digests identify values.", "TLC on extracted key-name dependency tables and call histories + replay in fresh processes + merged-graph evaluation", "DESIGN.md section 5 C14")
+
 ALL = [f"C{n:02d}" for n in range(1, 21)]
 
 def main():
